@@ -23,6 +23,10 @@ func init() {
 
 func runC18(c *eng.Ctx) {
 	c.Rule("R18.3", "K2")
+	ruleInternalPublishResumesThePartition(c)
+	// (R14.6, shared) "the entry was compacted away" is recognised by identity: the store's error arrives unwrapped
+	ruleSentinelIdentity(c, "R14.6", []string{"server.(*activityManager).dispatch"}, "the dispatcher no longer recognises an entry that Raft log compaction removed: it panics as soon as the server is elected — on a log that starts behind a snapshot, after every restart")
+	c.Rule("R18.3", "K2")
 	ruleLeadershipChannelIsClosedOnce(c)
 	p := c.P
 	// ---- R18.1
